@@ -33,7 +33,8 @@ const modPath = "github.com/pandatix/go-cvss"
 
 // import paths that are swapped for simulated twins
 var swapped = map[string]string{
-	"sync": modPath + "/verifsim/sync",
+	"sync":        modPath + "/verifsim/sync",
+	"sync/atomic": modPath + "/verifsim/atomic",
 }
 
 // imports library code may not use under the simulator
